@@ -247,6 +247,11 @@ class Monitor:
             for d in ranges:
                 rnode = compiler.cell_map.get(d)
                 cnode = compiler.cell_map.get(c.address)
+                if getattr(run, 'trimmed', False) and fcell in g and (
+                        rnode is None or not g.has_edge(rnode, fcell)):
+                    # (the wired node trim_graph left in the graph, see above)
+                    rnode = next((n for n in g.predecessors(fcell) if n.address.address == d),
+                                 rnode)
                 if rnode is None or cnode is None or not g.has_edge(rnode, fcell):
                     continue
                 if history._unbounded(d):
